@@ -70,7 +70,7 @@ type Case struct {
 	Steps []Step `json:"steps"`
 }
 
-var kinds = []string{"direct", "host", "catchall", "ignore-add", "ignore-remove", "redirect", "notfound", "nomethod", "options", "lookup", "lookup-tsr", "host-infix-tsr", "double-infix-tsr", "infix", "hijack", "infix-empty-seg", "double-infix-empty-seg", "nomethod-host", "infix-sib", "infix-sib", "infix-sib-miss", "infix-sib-miss", "host-static", "host-static"}
+var kinds = []string{"direct", "host", "catchall", "ignore-add", "ignore-remove", "redirect", "notfound", "nomethod", "options", "lookup", "lookup-tsr", "host-infix-tsr", "double-infix-tsr", "infix", "hijack", "infix-empty-seg", "double-infix-empty-seg", "nomethod-host", "infix-sib", "infix-sib", "infix-sib-miss", "infix-sib-miss", "host-static", "host-static", "redirect-helper", "redirect-helper"}
 
 type expKey struct{}
 
@@ -373,6 +373,19 @@ func newHarness() (*harness, error) {
 		}
 		_ = conn.Close()
 	})
+	// a handler that answers with Context.Redirect: whether that works depends on this request's writer alone
+	f.MustHandle("GET", "/rh/{tok}", func(c fox.Context) {
+		e := h.inspect("redirecting handler", c, true)
+		if e == nil {
+			return
+		}
+		if err := c.Redirect(http.StatusFound, "/to/"+e.tok); err != nil {
+			h.fail("redirecting handler [token %s]: Redirect(302) on a writer nothing was written to returned %v", e.tok, err)
+		}
+		if w := c.Writer(); w.Status() != http.StatusFound || !w.Written() {
+			h.fail("redirecting handler [token %s]: after Redirect(302) the writer reports status=%d written=%v", e.tok, w.Status(), w.Written())
+		}
+	})
 	f.MustHandle("POST", "/m/{tok}", rh)
 	f.MustHandle("PUT", "/m/{tok}", rh)
 	// an infix catch-all behind a static segment that competes with a parameter: a direct match through it leaves untried
@@ -412,6 +425,8 @@ func buildStep(s Step, tok string, n int) (*http.Request, *exp) {
 		path, e.pattern, e.params = "/dd/"+tok+"/m/"+tok+"/end", "/dd/*{tok}/m/*{tok2}/end/", []string{"tok", "tok2"}
 	case "infix":
 		path, e.pattern, e.params = "/in/"+tok+"/x/"+tok, "/in/*{tok}/x/{tok2}", []string{"tok", "tok2"}
+	case "redirect-helper":
+		path, e.pattern, e.params, e.status, e.size = "/rh/"+tok, "/rh/{tok}", []string{"tok"}, http.StatusFound, -1
 	case "hijack":
 		path, e.pattern, e.params, e.size = "/hj/"+tok, "/hj/{tok}", []string{"tok"}, -2
 	case "infix-empty-seg":
